@@ -1,6 +1,7 @@
 package main
 
 import (
+	"sort"
 	"fmt"
 	"math"
 	"reflect"
@@ -120,7 +121,23 @@ func renderV(v reflect.Value) string {
 		}
 		return s + "]"
 	case reflect.Map:
-		return fmt.Sprintf("%v", v.Interface()) // fmt sorts map keys
+		if v.Type().Elem().Kind() != reflect.Pointer {
+			return fmt.Sprintf("%v", v.Interface()) // fmt sorts map keys
+		}
+		// pointer elements: by pointee, keys sorted
+		if v.IsNil() {
+			return "map[]"
+		}
+		keys := v.MapKeys()
+		sort.Slice(keys, func(i, j int) bool { return fmt.Sprint(keys[i].Interface()) < fmt.Sprint(keys[j].Interface()) })
+		s := "map["
+		for i, k := range keys {
+			if i > 0 {
+				s += " "
+			}
+			s += fmt.Sprintf("%v:%s", k.Interface(), renderV(v.MapIndex(k)))
+		}
+		return s + "]"
 	case reflect.Struct:
 		s := "{"
 		for i := 0; i < v.NumField(); i++ {
@@ -317,6 +334,26 @@ func slicesOf[T any](vs ...[]T) []func() []T {
 	return out
 }
 
+// pmapsOf: maps with pointer elements, a fresh pointer per entry on every call
+func pmapsOf[T any](vs ...map[string]T) []func() map[string]*T {
+	var out []func() map[string]*T
+	for _, v := range vs {
+		v := v
+		out = append(out, func() map[string]*T {
+			if v == nil {
+				return nil
+			}
+			m := map[string]*T{}
+			for k, x := range v {
+				x := x
+				m[k] = &x
+			}
+			return m
+		})
+	}
+	return out
+}
+
 func mapsOf[T any](vs ...map[string]T) []func() map[string]T {
 	var out []func() map[string]T
 	for _, v := range vs {
@@ -427,6 +464,8 @@ func allKindsT(thorough bool) []kind {
 		mkKind("map[string]string", mapsOf(nil, map[string]string{"a": "x"}, map[string]string{"a": ""}, map[string]string{"a": "y"}, map[string]string{"a": "x", "b": "y"}, map[string]string{"0": "z"}, map[string]string{"é": "✓"}), func() map[string]string { return map[string]string{"k": "seven", "0": "eight"} }),
 		mkKind("map[string]bool", mapsOf(nil, map[string]bool{"a": true}, map[string]bool{"a": false}, map[string]bool{"a": true, "b": false}), func() map[string]bool { return map[string]bool{"k": true} }),
 		mkKind("map[string]float64", mapsOf(nil, map[string]float64{"a": 1.5}, map[string]float64{"a": 0}, map[string]float64{"a": math.Inf(1), "b": -2}), func() map[string]float64 { return map[string]float64{"k": 7} }),
+		mkKind("map[string]*int", pmapsOf(nil, map[string]int{"a": 1}, map[string]int{"a": 0}, map[string]int{"a": 1, "b": 2}, map[string]int{"a": 2, "b": 1, "c": 3}, map[string]int{"b": 2}), func() map[string]*int { x := 7; return map[string]*int{"k": &x} }),
+		mkKind("map[string]*string", pmapsOf(nil, map[string]string{"a": "x"}, map[string]string{"a": "x", "b": "y"}, map[string]string{"a": "y", "b": ""}), func() map[string]*string { x := "seven"; return map[string]*string{"k": &x} }),
 		mkKind("map[NamedKey]int", []func() map[NamedKey]int{func() map[NamedKey]int { return nil }, func() map[NamedKey]int { return map[NamedKey]int{"a": 1} }, func() map[NamedKey]int { return map[NamedKey]int{"a": 2, "b": 0} }, func() map[NamedKey]int { return map[NamedKey]int{"0": 5} }}, func() map[NamedKey]int { return map[NamedKey]int{"k": 7} }),
 		mkKind("struct", cs(Flat{}, Flat{A: 1}, Flat{B: "x"}, Flat{C: 2.5}, Flat{D: true}, Flat{A: -1, B: "é", C: math.Inf(1), D: true}, Flat{A: int(p53), B: "0"}), func() Flat { return Flat{7, "seven", 7.5, true} }),
 		mkKind("*struct", []func() *Flat{func() *Flat { return nil }, func() *Flat { return &Flat{} }, func() *Flat { return &Flat{A: 1} }, func() *Flat { return &Flat{B: "x", D: true} }, func() *Flat { return &Flat{A: -1, B: "é", C: 2.5, D: true} }}, func() *Flat { return &Flat{7, "seven", 7.5, true} }),
